@@ -3,6 +3,8 @@ import itertools
 
 from symprov.oblig import Obligation
 
+BUILTIN = [("prov", "http://www.w3.org/ns/prov#"), ("xsd", "http://www.w3.org/2001/XMLSchema#"),
+           ("xsi", "http://www.w3.org/2001/XMLSchema-instance")]
 OPS = ["add_namespace", "set_default", "resolve_qname", "resolve_prefixed_str", "resolve_bare", "resolve_full_uri"]
 
 
@@ -75,7 +77,7 @@ def history(ctx):
             before = [(n.prefix, n.uri) for n in S.namespaces]
             ns = S.add_namespace(p, u)
             ctx.check(ns.uri == u, "add_namespace(%s) returned a namespace with another URI" % si)
-            for bp, bu in before:
+            for bp, bu in before + BUILTIN:
                 if bp == ns.prefix:
                     ctx.check(bu == u, "clashing registration re-used a bound prefix for a different URI")
             registered.append((si, ns.prefix, u))
@@ -129,6 +131,11 @@ def history(ctx):
             nss = [n for n in scopes[sj].namespaces if n.prefix == pfx]
             ctx.check(len(nss) == 1, "(b) registered prefix lost or duplicated")
             ctx.check(nss[0].uri == u0, "(b) registered prefix silently re-pointed")
+        # ... and the predeclared prefixes prov / xsd / xsi keep their meaning in every scope
+        for sc in scopes:
+            for bp, bu in BUILTIN:
+                r0 = sc.valid_qualified_name(bp + ":x")
+                ctx.check(r0 is not None and r0.uri == bu + "x", "(b) a predeclared prefix (prov/xsd/xsi) was re-pointed")
         # (c) every handed-out name, printed and resolved again in its scope, denotes the same URI
         for sj, q in handed:
             r2 = scopes[sj].valid_qualified_name(str(q))
